@@ -337,6 +337,7 @@ func runMixed(r *hx.Run, rng *hx.Rng) string {
 	var clock atomic.Int64
 	var mu sync.Mutex
 	var writes, reads []obs // writes: val 0 = delete
+	var hasObs []obs        // what concurrent Has calls answered (val 1 / 0)
 	var qGet, qRaw []uint64 // at every quiescence: what Get returns / what the store holds (0: absent)
 	phases := rng.Range(8, 30)
 	for phase := 0; phase < phases; phase++ {
@@ -399,13 +400,22 @@ func runMixed(r *hx.Run, rng *hx.Rng) string {
 			go func() {
 				defer rwg.Done()
 				defer catchPanic()
-				var local []obs
+				var local, localHas []obs
 				for n := 0; !stop.Load() && n < 2000; n++ {
 					inv := clock.Add(1)
 					v, err := tv.Get()
 					ret := clock.Add(1)
 					if n%3 == 0 {
-						tv.Has()
+						hinv := clock.Add(1)
+						h, herr := tv.Has()
+						hret := clock.Add(1)
+						if herr == nil && (len(localHas) == 0 || (localHas[len(localHas)-1].val == 1) != h || len(localHas) < 50) {
+							hv := uint64(0)
+							if h {
+								hv = 1
+							}
+							localHas = append(localHas, obs{val: hv, inv: hinv, ret: hret, kind: "has"})
+						}
 					}
 					if err != nil && !errors.Is(err, kvstore.ErrKeyNotFound) {
 						continue
@@ -420,6 +430,7 @@ func runMixed(r *hx.Run, rng *hx.Rng) string {
 				}
 				mu.Lock()
 				reads = append(reads, local...)
+				hasObs = append(hasObs, localHas...)
 				mu.Unlock()
 			}()
 		}
@@ -499,6 +510,36 @@ func runMixed(r *hx.Run, rng *hx.Rng) string {
 			break
 		}
 	}
+	// Has: the answered presence must be that of some write (or of the initial absence) which was invoked before the Has
+	// returned and was not definitely replaced by a write of the opposite presence before the Has was invoked
+	for _, g := range hasObs {
+		possible := false
+		for _, w := range all {
+			if (w.val != 0) != (g.val == 1) || w.inv > g.ret {
+				continue
+			}
+			over := false
+			for _, w2 := range all {
+				if w2.inv > w.ret && w2.ret < g.inv && (w2.val != 0) != (w.val != 0) {
+					over = true
+
+					break
+				}
+			}
+			if !over {
+				possible = true
+
+				break
+			}
+		}
+		if !possible {
+			r.Fail("readers-see-written", fmt.Sprintf("Has [%d,%d] answered %v although every write that left the key in that state was replaced before the call started (or no write ever did)", g.inv, g.ret, g.val == 1),
+				map[string]string{"oracle": "stale-or-future-presence", "api": "TypedValue.Has"})
+
+			break
+		}
+	}
+	r.CountN("conc:mixed-has", len(hasObs))
 	// at the end the stored value is one that was written
 	raw, err := base.Get(tvKey)
 	rawHas := err == nil
